@@ -93,8 +93,9 @@ type kase struct {
 	Part string `json:"part"` // stream | mitm | auth | chan | admit | mconn
 
 	// stream
-	Writes []int `json:"writes,omitempty"`
-	Reads  []int `json:"reads,omitempty"`
+	Writes []int      `json:"writes,omitempty"`
+	Reads  []int      `json:"reads,omitempty"`
+	Prior  [][2][]int `json:"prior,omitempty"` // (writes, reads) patterns run before on the same connection
 
 	// mitm
 	Tamper string `json:"tamper,omitempty"`
@@ -131,53 +132,6 @@ func (c *ctx) report(sig map[string]string, k kase, detail string) {
 	c.run.Report(sig, k, detail)
 }
 
-// streamShape classifies the input: does an ideal receiver (one that returns
-// min(len(buf), rest of the current frame chunk)) ever serve a read from the
-// left-over of a chunk, i.e. was some earlier read buffer smaller than the
-// chunk it was served from?
-func (c *ctx) streamShape(writes, reads []int) string {
-	var chunks []int
-	for _, w := range writes {
-		for w > 0 {
-			n := w
-			if n > c.dataMax {
-				n = c.dataMax
-			}
-			chunks = append(chunks, n)
-			w -= n
-		}
-	}
-	total := 0
-	for _, x := range chunks {
-		total += x
-	}
-	rem, ci, got := 0, 0, 0
-	for step := 0; got < total && step < 1<<20; step++ {
-		b := reads[step%len(reads)]
-		if rem > 0 {
-			if b > 0 {
-				return "leftover-read"
-			}
-			continue
-		}
-		if ci >= len(chunks) {
-			break
-		}
-		n := chunks[ci]
-		ci++
-		if b < n {
-			rem = n - b
-			got += b
-		} else {
-			got += n
-		}
-		if allZero(reads) {
-			break
-		}
-	}
-	return "chunk-aligned"
-}
-
 func allZero(a []int) bool {
 	for _, x := range a {
 		if x != 0 {
@@ -199,42 +153,6 @@ var (
 	keyA = detKey("node-A")
 	keyB = detKey("node-B")
 )
-
-// runStream: one (write sizes, read buffer sizes) pattern, both directions.
-func (c *ctx) runStream(k kase) {
-	atomic.AddInt64(&c.evals, 1)
-	atomic.AddInt64(&c.streamCases, 1)
-	shape := c.streamShape(k.Writes, k.Reads)
-	if shape == "leftover-read" {
-		atomic.AddInt64(&c.leftoverCases, 1)
-	}
-	s := handshake([2]crypto.PrivKey{keyA, keyB}, nil, [2][][]byte{})
-	if !c.checkCleanHandshake(k, s, "secretconn-stream") {
-		return
-	}
-	failed := false
-	for from := 0; from < 2; from++ {
-		to := 1 - from
-		kind, detail, zeroNil, site := c.streamOneWay(s, from, to, k.Writes, k.Reads)
-		c.classes.Add(fmt.Sprintf("stream/%s/%s", shape, orOK(kind)))
-		if kind != "" {
-			failed = true
-			zn := "no"
-			if zeroNil {
-				zn = "yes"
-			}
-			sig := map[string]string{"part": "secretconn-stream", "kind": kind, "shape": shape, "zero_nil_read": zn}
-			if site != "" {
-				sig["site"] = site
-			}
-			c.report(sig, k, fmt.Sprintf("direction %d->%d writes=%v read-buffers=%v (cyclic): %s", from, to, k.Writes, k.Reads, detail))
-			break
-		}
-	}
-	if failed && shape == "leftover-read" {
-		atomic.AddInt64(&c.leftoverFailing, 1)
-	}
-}
 
 func orOK(s string) string {
 	if s == "" {
@@ -264,106 +182,6 @@ func (c *ctx) checkCleanHandshake(k kase, s *session, part string) bool {
 		}
 	}
 	return true
-}
-
-func (c *ctx) streamOneWay(s *session, from, to int, writes, reads []int) (kind, detail string, zeroNil bool, site string) {
-	total := sum(writes)
-	data := pattern(total, uint64(7+from))
-	p, v, st := core.Try(func() {
-		off := 0
-		for i, w := range writes {
-			n, err := s.sc[from].Write(data[off : off+w])
-			if err != nil || n != w {
-				kind, detail = "write-error", fmt.Sprintf("write #%d of %d bytes returned n=%d err=%v", i, w, n, err)
-				return
-			}
-			off += w
-		}
-		var got []byte
-		idle := 0
-		var rerr error
-		for step := 0; len(got) < total && step < 200000; step++ {
-			b := reads[step%len(reads)]
-			buf := bytes.Repeat([]byte{0xEE}, b)
-			n, err := s.sc[to].Read(buf)
-			if n < 0 || n > b {
-				kind, detail = "bad-n", fmt.Sprintf("Read(len %d) returned n=%d", b, n)
-				return
-			}
-			got = append(got, buf[:n]...)
-			if !bytes.HasPrefix(data, got) {
-				break
-			}
-			if err != nil {
-				rerr = err
-				break
-			}
-			if n == 0 {
-				if b > 0 {
-					zeroNil = true
-				}
-				idle++
-				if idle > len(reads) {
-					break
-				}
-			} else {
-				idle = 0
-			}
-		}
-		// whatever the enumerated buffers did not obtain must still be there
-		if rerr == nil && len(got) < total && bytes.HasPrefix(data, got) {
-			idle = 0
-			for step := 0; step < 64 && len(got) < total+8192; step++ {
-				buf := make([]byte, 4096)
-				n, err := s.sc[to].Read(buf)
-				if n < 0 || n > len(buf) {
-					kind, detail = "bad-n", fmt.Sprintf("Read(len %d) returned n=%d", len(buf), n)
-					return
-				}
-				got = append(got, buf[:n]...)
-				if err != nil {
-					rerr = err
-					break
-				}
-				if n == 0 {
-					zeroNil = true
-					idle++
-					if idle > 3 {
-						break
-					}
-				} else {
-					idle = 0
-				}
-			}
-		}
-		if bytes.Equal(got, data) {
-			// nothing may follow
-			buf := make([]byte, 4096)
-			n, _ := s.sc[to].Read(buf)
-			if n != 0 {
-				kind, detail = "bytes-duplicated", fmt.Sprintf("%d extra bytes after the complete stream of %d", n, total)
-			}
-			return
-		}
-		// classify the difference
-		l := 0
-		for l < len(got) && l < len(data) && got[l] == data[l] {
-			l++
-		}
-		switch {
-		case len(got) < len(data):
-			kind = "bytes-lost"
-		case len(got) > len(data) && l == len(data):
-			kind = "bytes-duplicated"
-		default:
-			kind = "bytes-altered"
-		}
-		detail = fmt.Sprintf("wrote %d bytes, obtained %d, streams agree on the first %d bytes only (final read error: %v)", len(data), len(got), l, rerr)
-	})
-	if p {
-		return "panic", core.FirstLine(v), zeroNil, core.PanicSite(st)
-	}
-	return
 }
 
 // ---------------------------------------------------------------- man in the middle
